@@ -49,6 +49,14 @@ CHECKS = {
         'compared exactly incl. the tie choices of the matching; brute-force oracle over all injective assignments; permutation invariance checked on the implementation.',
    note=PROOF_NOTE + ' Permutation invariance of the unordered grade is checked per case on the implementation (oracle) and follows from optimality; it is not yet stated as a separate Lean theorem.',
    technique='Lean 4 proof (credit formula via Munkres optimality theorem) + exact correspondence + brute-force oracle', design='§6 C07'),
+ 'C05': dict(
+   text='ListGrader.check / perform_check / find_optimal_order / get_best_result / groupify / ungroupify modelled over arbitrary subgrader check functions; proved: ordered = pointwise subgrader results; '
+        'unordered (no grouping) = results R i (tau i) of a permutation tau whose total credit no permutation beats, reported one per input in input order (corollary of the Munkres total-correctness theorem); '
+        'the reported answer list is a candidate with maximal total; partial_credit=False zeroes everything unless all entries are fully correct; a wrong number of inputs is a ConfigError. '
+        'Tie: real ListGraders (ordered/unordered, 1-3 answer lists, subgrader lists incl. SingleListGraders, grouping with nested ListGraders) over a table-driven ItemGrader with exact Fraction credits, whole input_list compared exactly; '
+        'oracle: exhaustive n! assignment search and per-position recomputation.',
+   note=PROOF_NOTE + ' Position reporting under grouping (ungroupify o groupify) is covered by the correspondence and the per-group position oracle, not yet by a Lean theorem; numpy float sums in get_best_result are exact only for the dyadic credits used there.',
+   technique='Lean 4 proof (optimal assignment via Munkres theorem, max-total selection) + exact correspondence + n! oracle', design='§6 C05'),
 }
 NA_REASON = 'check not built yet in this round (planned: see DESIGN.md §6); not claimed until its model, theorems and correspondence exist'
 
